@@ -50,7 +50,12 @@ def gen_ballot(rng, con):
         if con["winner"][0] in prefs and rng.random() < 0.6:
             prefs.remove(con["winner"][0])
             prefs.insert(0, con["winner"][0])
-        return {c: i + 1 for i, c in enumerate(prefs)}
+        ranks = {c: i + 1 for i, c in enumerate(prefs)}
+        if rng.random() < 0.3:
+            # the mapping stored in candidate order rather than preference order (an export lists the columns in ballot
+            # order): two ballots can then list the same candidates in the same order with different ranks
+            return {c: ranks[c] for c in cands if c in ranks}
+        return ranks
     r = rng.random()
     marks = {}
     if r < 0.08:
